@@ -53,3 +53,186 @@ def setitem(payload):
                     return {"status": "fail", "cases": cases, "detail": msg,
                             "input": dict(kind=kind, cap=cap, leaves=leaves, idx=idx, val=val)}
     return {"status": "pass", "cases": cases}
+
+
+def _retrieve_case(cap, leaves, ub):
+    t = SumSegmentTree(cap)
+    for i, x in enumerate(leaves):
+        t[i] = x
+    r = t.retrieve(ub)
+    if not (0 <= r < cap):
+        return f"retrieve({ub}) returned {r} outside [0,{cap})"
+    lo = sum(leaves[:r])
+    if not (lo <= ub < lo + leaves[r]):
+        return f"retrieve({ub}) returned {r}, whose mass interval is [{lo},{lo + leaves[r]}) (leaves {leaves})"
+    return None
+
+
+def retrieve(payload):
+    if payload.get("mode") == "replay":
+        msg = _retrieve_case(payload["cap"], payload["leaves"], payload["ub"])
+        return {"status": "fail" if msg else "pass", "cases": 1, "detail": msg, "input": payload}
+    rnd = random.Random(payload.get("seed", 0))
+    cases = 0
+    for cap in (1, 2, 4, 8, 16):
+        for _ in range(80):
+            leaves = [rnd.randint(0, 4) for _ in range(cap)]
+            tot = sum(leaves)
+            if tot == 0:
+                continue
+            # exact boundaries of every mass interval and points strictly inside (integers and halves are exact in floats)
+            pts = sorted({float(sum(leaves[:k])) for k in range(cap + 1)} | {sum(leaves[:k]) + 0.5 for k in range(cap)})
+            for ub in pts:
+                if 0 <= ub < tot:
+                    cases += 1
+                    msg = _retrieve_case(cap, leaves, ub)
+                    if msg:
+                        return {"status": "fail", "cases": cases, "detail": msg, "input": dict(cap=cap, leaves=leaves, ub=ub)}
+    return {"status": "pass", "cases": cases}
+
+
+def operate(payload):
+    """sum(start, end) / min(start, end) over every sub-range agree with a direct computation."""
+    rnd = random.Random(payload.get("seed", 0))
+    cases = 0
+    for cap in (1, 2, 4, 8, 16):
+        for _ in range(6):
+            leaves = [rnd.randint(0, 9) for _ in range(cap)]
+            ts, tm = SumSegmentTree(cap), MinSegmentTree(cap)
+            for i, x in enumerate(leaves):
+                ts[i] = x
+                tm[i] = x
+            for start in range(cap):
+                for end in range(start + 1, cap + 1):
+                    cases += 1
+                    e = end if end < cap else 0     # end == capacity is expressed as 0 in this API
+                    try:
+                        got_s, got_m = ts.sum(start, e if e else 0), tm.min(start, e if e else 0)
+                    except RecursionError:
+                        return {"status": "fail", "cases": cases, "detail": "unbounded recursion in _operate_helper",
+                                "input": dict(cap=cap, leaves=leaves, start=start, end=end)}
+                    if got_s != sum(leaves[start:end]) or got_m != min(leaves[start:end]):
+                        return {"status": "fail", "cases": cases,
+                                "detail": f"sum/min({start},{end}) = {got_s}/{got_m}, direct {sum(leaves[start:end])}/{min(leaves[start:end])}",
+                                "input": dict(cap=cap, leaves=leaves, start=start, end=end)}
+    return {"status": "pass", "cases": cases}
+
+
+# ------------------------------------------------------------------------------------- PrioritizedReplayBuffer
+def _per_batch(ids):
+    import torch
+    from tensordict import TensorDict
+    t = torch.tensor(ids, dtype=torch.float32)
+    return TensorDict({"obs": t.clone().reshape(-1, 1), "action": t.clone().long(), "reward": t.clone(),
+                       "next_obs": t.clone().reshape(-1, 1) + 1, "done": torch.zeros(len(ids))}, batch_size=[len(ids)])
+
+
+def _per_check(buf, prio, maxseen, N, alpha, where):
+    """prio: reference list of priorities by slot (None = not stored).  Returns error message or None."""
+    size = len(buf)
+    stored = [j for j in range(N) if prio[j] is not None]
+    if size != len(stored):
+        return f"{where}: len(buffer)={size} but {len(stored)} slots are stored"
+    cap = buf.sum_tree.capacity
+    exp = [(prio[j] ** alpha if j < N and prio[j] is not None else 0.0) for j in range(cap)]
+    got = [buf.sum_tree[j] for j in range(cap)]
+    if any(abs(g - e) > 1e-9 * max(1, abs(e)) for g, e in zip(got, exp)):
+        return f"{where}: sum-tree leaves {got} != priorities^alpha {exp}"
+    gotm = [buf.min_tree[j] for j in range(cap)]
+    expm = [(prio[j] ** alpha if j < N and prio[j] is not None else float('inf')) for j in range(cap)]
+    if any((g != e) and abs(g - e) > 1e-9 * max(1, abs(e)) for g, e in zip(gotm, expm)):
+        return f"{where}: min-tree leaves {gotm} != {expm}"
+    if stored:
+        tot, mn = sum(exp), min(e for e in expm)
+        if abs(buf.sum_tree.sum() - tot) > 1e-9 * max(1, tot):
+            return f"{where}: running total {buf.sum_tree.sum()} != direct sum {tot}"
+        if abs(buf.min_tree.min() - mn) > 1e-9 * max(1, mn):
+            return f"{where}: running minimum {buf.min_tree.min()} != direct min {mn}"
+    if abs(buf.max_priority - maxseen) > 1e-12 * max(1, maxseen):
+        return f"{where}: max_priority {buf.max_priority} != highest priority seen so far {maxseen}"
+    return None
+
+
+def _per_sequence(N, alpha, beta, ops, rnd):
+    import torch
+    from agilerl.components.replay_buffer import PrioritizedReplayBuffer
+    buf = PrioritizedReplayBuffer(N, alpha=alpha)
+    prio = [None] * N
+    cur, nxt, maxseen = 0, 0, 1.0
+    for step, op in enumerate(ops):
+        where = f"N={N} alpha={alpha} ops={ops[:step + 1]}"
+        if op[0] == "add":
+            w = op[1]
+            buf.add(_per_batch(list(range(nxt, nxt + w))))
+            nxt += w
+            for _ in range(w):
+                prio[cur] = maxseen
+                cur = (cur + 1) % N
+        elif op[0] == "clear":
+            buf.clear()
+            prio = [None] * N
+            cur = 0
+            maxseen = buf.max_priority     # a cleared buffer may keep or reset its running max; both are consistent
+        elif op[0] == "update" and len(buf) > 0:
+            stored = [j for j in range(N) if prio[j] is not None]
+            idxs = [rnd.choice(stored) for _ in range(op[1])]
+            ps = [rnd.choice([1e-9, 1e-3, 0.5, 1.0, 3.0, 1e4]) for _ in idxs]
+            buf.update_priorities(torch.tensor(idxs), torch.tensor(ps, dtype=torch.float64))
+            for j, p in zip(idxs, ps):
+                p = max(p, 1e-5)
+                prio[j] = p
+                maxseen = max(maxseen, p)
+        elif op[0] == "sample" and len(buf) > 0:
+            k = op[1]
+            # controlled variates, including the ends of each stratum
+            for u in (0.0, 0.5, 1.0 - 2 ** -24):
+                orig = torch.rand
+                torch.rand = lambda *a, **kw: torch.tensor([u])
+                try:
+                    b = buf.sample(k, beta)
+                finally:
+                    torch.rand = orig
+                idxs = [int(x) for x in b["idxs"].reshape(-1)]
+                if any(not (0 <= j < N) or prio[j] is None for j in idxs):
+                    return f"{where}: sampled indices {idxs} include a slot that holds no stored transition (u={u})"
+                pa = [(p ** alpha if p is not None else 0.0) for p in prio]
+                tot = sum(pa)
+                seg = tot / k
+                for s_i, j in enumerate(idxs):
+                    ub = u * seg + seg * s_i
+                    lo = sum(pa[:j])
+                    if not (lo - 1e-9 * tot <= ub < lo + pa[j] + 1e-9 * tot):
+                        return f"{where}: stratum {s_i} draw {ub} returned index {j} whose mass interval is [{lo},{lo + pa[j]})"
+                size = len(buf)
+                wmax = max((size * p / tot) ** -beta for p in pa if p > 0)
+                ws = [float(x) for x in b["weights"].reshape(-1)]
+                for j, wj in zip(idxs, ws):
+                    e = ((size * pa[j] / tot) ** -beta) / wmax
+                    if abs(wj - e) > 1e-5 * max(1, e) or not (0 < wj <= 1 + 1e-6):
+                        return f"{where}: weight {wj} for index {j} != (N*P(i))^-beta / max = {e} (must lie in (0,1])"
+        msg = _per_check(buf, prio, maxseen, N, alpha, where)
+        if msg:
+            return msg
+    return None
+
+
+def per(payload):
+    rnd = random.Random(payload.get("seed", 0))
+    if payload.get("mode") == "replay":
+        msg = _per_sequence(payload["N"], payload["alpha"], payload["beta"], [tuple(o) for o in payload["ops"]], rnd)
+        return {"status": "fail" if msg else "pass", "cases": 1, "detail": msg, "input": payload}
+    cases = 0
+    n = 25 if payload.get("tier") != "thorough" else 150
+    for N in (1, 2, 3, 4, 5, 8):
+        for _ in range(n):
+            alpha, beta = rnd.choice([0.0, 0.5, 0.6, 1.0]), rnd.choice([0.0, 0.4, 1.0])
+            ops = []
+            for _ in range(rnd.randint(2, 9)):
+                kind = rnd.choice(["add", "add", "add", "update", "sample", "clear"])
+                ops.append((kind, rnd.randint(1, N)))
+            cases += 1
+            msg = _per_sequence(N, alpha, beta, ops, rnd)
+            if msg:
+                return {"status": "fail", "cases": cases, "detail": msg, "witness_key": msg.split(":")[-1][:60],
+                        "input": dict(N=N, alpha=alpha, beta=beta, ops=ops)}
+    return {"status": "pass", "cases": cases}
